@@ -271,7 +271,7 @@ Record variant := { reject_nonfinite : bool; none_as_blank : bool }.
 Definition as_code : variant := {| reject_nonfinite := false; none_as_blank := false |}.
 Definition fixed : variant := {| reject_nonfinite := true; none_as_blank := true |}.
 (* The behaviour of the tree under test.  Flip to [fixed] once proposed_fixes/C05-*.diff are applied. *)
-Definition tree_variant : variant := as_code.
+Definition tree_variant : variant := fixed.   (* /repo has fix: 111bcb5 (non-finite) and 61b1f62 (regex None group) *)
 
 Record txn := {
   t_date : bs;                   (* the datetime strptime returned (as the oracle renders it) *)
